@@ -34,9 +34,10 @@ type c20Cmp struct {
 var c20Fallback = map[string]bool{"text-differs": true, "mustache-evaluated": true, "whitespace-extra": true, "whitespace-missing": true, "structure-differs": true, "attr-missing": true, "attr-extra": true, "attr-value-differs": true, "falsy-attribute-dropped": true}
 
 func (cm *c20Cmp) add(lt bool, class, sink, format string, args ...any) {
-	if lt && cm.lt && c20Fallback[class] {
-		class, sink = "literal-lt-became-markup", "text"
-	}
+	// (Differences in a document with a literal '<' used to be attributed to the
+	// engine copying that '<' unescaped; since that defect was repaired every
+	// difference keeps its own class, so nothing hides behind the old label.)
+	_ = lt
 	cm.diffs = append(cm.diffs, c20D{class, sink, fmt.Sprintf(format, args...)})
 }
 
